@@ -626,9 +626,108 @@ fn run_one(seed: u64, run_index: u64, st: &mut Stats, ctx: &WorkerCtx) {
     }
 }
 
+// ------------------------------------------------------------------------------------ thread teardown
+
+/// Re-entry at thread teardown: a client thread initialises a thread-local guard FIRST, then
+/// obtains values; when the thread exits, the guard's destructor - which runs after the
+/// destructors of every thread-local initialised later - pushes each stored value through
+/// `try_new(v.into_inner())` once more. Validation must not depend on per-thread state that is
+/// already gone by then.
+type TeardownJob = Box<dyn FnOnce() -> (String, String, Result<(), String>)>;
+
+struct TeardownGuard(std::cell::RefCell<Vec<TeardownJob>>);
+
+static TEARDOWN_RESULTS: std::sync::Mutex<Vec<(String, String, Result<(), String>)>> = std::sync::Mutex::new(Vec::new());
+
+impl Drop for TeardownGuard {
+    fn drop(&mut self) {
+        let jobs: Vec<TeardownJob> = self.0.borrow_mut().drain(..).collect();
+        let mut out = Vec::new();
+        for j in jobs {
+            out.push(j());
+        }
+        if let Ok(mut g) = TEARDOWN_RESULTS.lock() {
+            g.extend(out);
+        }
+    }
+}
+
+thread_local! {
+    static TEARDOWN_GUARD: TeardownGuard = TeardownGuard(std::cell::RefCell::new(Vec::new()));
+}
+
+struct TeardownVisit<'a> {
+    rng: &'a mut Rng,
+}
+
+impl<'a> ChainVisitor for TeardownVisit<'a> {
+    type Out = usize;
+    fn visit<T: ChainT>(self) -> usize {
+        let mut n = 0;
+        for _ in 0..3 {
+            let raw = T::gen(self.rng);
+            let Ok(Ok(v)) = catch_unwind(AssertUnwindSafe(|| T::try_new_(raw))) else { continue };
+            n += 1;
+            let vrepr = v.repr();
+            let job: TeardownJob = Box::new(move || {
+                let r = catch_unwind(AssertUnwindSafe(|| T::try_new_(v.clone().into_inner_())));
+                let verdict = match r {
+                    Ok(Ok(w)) if w.repr() == vrepr => Ok(()),
+                    Ok(Ok(w)) => Err(format!("became {}", w.repr())),
+                    Ok(Err(e)) => Err(format!("rejected: {e}")),
+                    Err(p) => Err(format!("panicked: {}", panic_message(&p))),
+                };
+                (T::NAME.to_string(), vrepr, verdict)
+            });
+            TEARDOWN_GUARD.with(|g| g.0.borrow_mut().push(job));
+        }
+        n
+    }
+}
+
+fn run_teardown(cfg: &Config, stats: &mut Stats) {
+    for t in 0..4u64 {
+        let seed = cfg.seed;
+        let h = std::thread::spawn(move || {
+            // the guard first, so that it is destroyed last
+            TEARDOWN_GUARD.with(|_| ());
+            let mut rng = Rng::for_run(seed, SC_CHAIN + 1, t);
+            let mut n = 0usize;
+            for idx in 0..n_chain_decls() {
+                n += with_chain(idx, TeardownVisit { rng: &mut rng });
+            }
+            n
+        });
+        let stored = h.join().unwrap_or(0);
+        stats.add("teardown_values_stored", stored as u64);
+    }
+    let results: Vec<(String, String, Result<(), String>)> = TEARDOWN_RESULTS.lock().map(|mut g| g.drain(..).collect()).unwrap_or_default();
+    for (decl, vrepr, verdict) in results {
+        stats.evaluations += 1;
+        stats.inc("fault.thread_teardown_reentry");
+        if let Err(e) = verdict {
+            stats.violation(Violation {
+                run_index: u64::MAX - 2,
+                scenario: "S-CHAIN/teardown",
+                decl: decl.clone(),
+                invariant: "reentry_at_thread_teardown".into(),
+                signature: "reentry_at_thread_teardown".into(),
+                detail: format!("value {vrepr} accepted by try_new on a client thread; try_new(v.into_inner()) from a thread-local destructor of the same thread (after later thread-locals were destroyed): {e}"),
+                plan: json!({"scenario": "teardown", "decl": decl, "seed": cfg.seed, "value": vrepr}),
+            });
+        }
+    }
+}
+
 // ------------------------------------------------------------------------------------ replay / minimise
 
 fn exec_plan(plan: &Value) -> Result<Vec<(String, String)>, String> {
+    if plan["scenario"].as_str() == Some("teardown") {
+        let cfg = Config { property: PROPERTY, tier: "quick".into(), seed: plan["seed"].as_u64().unwrap_or(1), workers: 1, verif_dir: std::path::PathBuf::from("/verif") };
+        let mut st = Stats::default();
+        run_teardown(&cfg, &mut st);
+        return Ok(st.violations.into_iter().map(|v| (v.invariant, v.detail)).collect());
+    }
     let p: ChainPlan = serde_json::from_value(plan.clone()).map_err(|e| e.to_string())?;
     let idx = chain_index(&p.decl).ok_or_else(|| format!("unknown declaration {:?}", p.decl))?;
     let out = with_chain(idx, Exec { p: &p });
@@ -730,7 +829,8 @@ fn run_check(cfg: &Config) -> i32 {
     let t0 = Instant::now();
     let mut determinism_diverged = false;
     let n: u64 = if cfg.thorough() { 40_000_000 } else { 800_000 };
-    let stats = sweep(cfg, n, false, cfg.workers);
+    let mut stats = sweep(cfg, n, false, cfg.workers);
+    run_teardown(cfg, &mut stats);
     let a = sweep(cfg, 2048, true, 3);
     let b = sweep(cfg, 2048, true, cfg.workers.max(2));
     if a.trace != b.trace {
@@ -759,6 +859,7 @@ fn run_check(cfg: &Config) -> i32 {
         "fault.eintr",
         "fault.write_eintr",
         "fault.fmt_sink_error",
+        "fault.thread_teardown_reentry",
     ];
     let mut stuck: Vec<String> = must.iter().copied().filter(|k| stats.get(k) == 0).map(|s| s.to_string()).collect();
     for src in ["try_new", "try_from_inner", "from_str", "try_from_str", "deserialize", "arbitrary", "default"] {
